@@ -169,9 +169,35 @@ class Run:
         return shards
 
     # ----------------------------------------------------- trace validation
+    def split_shards(self, shards, limit=40e6):
+        """Cuts trace shards above `limit` bytes into pieces at program boundaries (every program starts with a Reset event and
+        is validated on its own state), so that a validator never has to hold more than one piece."""
+        out = []
+        for sh in shards:
+            if os.path.getsize(sh) <= limit:
+                out.append(sh)
+                continue
+            part, size, f = 0, 0, None
+            with open(sh) as src:
+                for line in src:
+                    if f is None or (size > limit and line.startswith('{"ev":"Reset"')):
+                        if f:
+                            f.close()
+                        path = "%s.p%d" % (sh, part)
+                        out.append(path)
+                        f = open(path, "w")
+                        part, size = part + 1, 0
+                    f.write(line)
+                    size += len(line)
+            if f:
+                f.close()
+            os.remove(sh)
+        return out
+
     def validate(self, shards, tag):
         """TLC checks every trace shard against spec/Trace.tla; returns (notes, events)."""
         notes, events = [], 0
+        shards = self.split_shards(shards)
 
         def one(sh):
             name = "val-" + os.path.basename(sh).replace(".trace", "").replace(".", "-")
